@@ -16,6 +16,7 @@ Driver for C06 and C12 (one module, the batch model of `Model/Batch.lean`):
 import Compass.Drv.Proto
 import Compass.Drv.JsonProto
 import Compass.Model.Batch
+import Compass.Model.BatchEntry
 
 namespace Compass.Drv.C06
 open Compass Compass.Proto Compass.Batch
@@ -94,6 +95,47 @@ def idxOf (q : Json) : String :=
   | some (.num l _) => l
   | _ => "?"
 
+def callOut : Outcome (Except CallErr (List Json)) → String
+  | .ok (.ok rs) => joinSp (("ok " ++ toString rs.length) :: rs.map JsonProto.enc)
+  | .ok (.error .notABatch) => "err NotABatch"
+  | .ok (.error .runConfig) => "err RunConfig"
+  | .ok (.error .sinkOpen) => "err SinkOpen"
+  | .ok (.error .flushRate) => "err FlushRate"
+  | .ok (.error .sinkWrite) => "err SinkWrite"
+  | .ok (.error .notJson) => "err NotJson"
+  | .ok (.error (.app .minBinEmpty)) => "err MinBinEmpty"
+  | .panic _ => "panic"
+  | .diverges => "diverges"
+
+inductive Text where
+  | absent
+  | bad
+  | good (v : Json)
+
+/-- a JSON text as the harness saw it: `n` (no text), `x` (does not parse), `s`/`t <json>` -/
+def textOf : P Text := do
+  let t ← next
+  match t with
+  | "n" => pure .absent
+  | "x" => pure .bad
+  | "s" => do let v ← JsonProto.json; pure (.good v)
+  | "t" => do let v ← JsonProto.json; pure (.good v)
+  | _ => failure
+
+def buildErrName : BuildErr → String
+  | .missingField => "MissingField"
+  | .wrongType => "WrongType"
+  | .serde => "Serde"
+  | .userConfig => "UserConfig"
+
+/-- the built plugin on one probe query -/
+def probeOut (p : Plugin) (q : Json) : String :=
+  match processO p q with
+  | .ok (.ok v) => "ok " ++ JsonProto.enc v
+  | .ok (.error e) => "perr " ++ e.kind
+  | .panic _ => "panic"
+  | .diverges => "diverges"
+
 def case : P String := do
   let op ← next
   match op with
@@ -117,6 +159,68 @@ def case : P String := do
     | .ok (.error .minBinEmpty) => pure "err MinBinEmpty"
     | .panic _ => pure "panic"
     | .diverges => pure "diverges"
+  | "gq" => do
+    let v ← JsonProto.json
+    match getQueries v with
+    | some qs => pure (joinSp (("ok " ++ toString qs.length) :: qs.map JsonProto.enc))
+    | none => pure "err"
+  | "call" => do
+    let selfPar ← nat
+    let persist ← bool
+    let envT ← listOf (do let n ← JsonProto.str; let o ← bool; let w ← bool; pure (n, (o, w)))
+    let runCfg ← optOf JsonProto.json
+    let fmtT ← listOf (do let b ← nat; let l ← JsonProto.str; pure (b, l))
+    let plugins ← listOf (plugin (fmtOf fmtT))
+    let env : String → Bool × Bool := fun n => (lookupStr envT n).getD (true, true)
+    let app : App := { plugins := plugins, parallelism := selfPar, persist := persist, policy := .none }
+    let kind ← next
+    match kind with
+    | "vec" => do
+      let batch ← listOf JsonProto.json
+      let resp ← listOf (do let k ← JsonProto.str; let v ← JsonProto.json; pure (k, v))
+      pure (callOut (callO floatOps env app runCfg (respondOf resp) batch))
+    | "value" => do
+      let v ← JsonProto.json
+      let resp ← listOf (do let k ← JsonProto.str; let v ← JsonProto.json; pure (k, v))
+      pure (callOut (callValueO floatOps env app runCfg (respondOf resp) v))
+    | "texts" => do
+      let cfgT ← textOf
+      let cfgText : Option (Option Json) := match cfgT with
+        | .absent => none
+        | .bad => some none
+        | .good v => some (some v)
+      let texts ← listOf (do
+        let t ← textOf
+        match t with
+        | .good v => pure (some v)
+        | .bad => pure none
+        | .absent => failure)
+      let resp ← listOf (do let k ← JsonProto.str; let v ← JsonProto.json; pure (k, v))
+      pure (callOut (runQueriesO floatOps env app cfgText (respondOf resp) texts))
+    | _ => failure
+  | "ibuild" => do
+    let params ← JsonProto.json
+    let ps ← optOf JsonProto.json
+    let pj ← optOf JsonProto.json
+    let probes ← listOf JsonProto.json
+    match buildInject params ps pj with
+    | .ok (.ok p) => pure (joinSp ("ok" :: probes.map (probeOut p)))
+    | .ok (.error e) => pure ("err " ++ buildErrName e)
+    | .panic _ => pure "panic"
+    | .diverges => pure "diverges"
+  | "lbuild" => do
+    let fmtT ← listOf (do let b ← nat; let l ← JsonProto.str; pure (b, l))
+    let params ← JsonProto.json
+    let probes ← listOf JsonProto.json
+    match buildLoadBalancer (fmtOf fmtT) params with
+    | .ok .haversine => pure "ok haversine"
+    | .ok (.custom p) => pure (joinSp ("ok custom" :: probes.map (probeOut p)))
+    | .error e => pure ("err " ++ buildErrName e)
+  | "stages" => do
+    let st ← listOf (do let n ← next; let f ← bool; pure (n, f))
+    match firstFailure (fun n => (lookupStr st n).getD false) with
+    | some stage => pure ("err " ++ stage)
+    | none => pure "ok"
   | _ => failure
 
 def run (line : String) : String := Proto.run case line
